@@ -19,7 +19,7 @@ pub fn check() -> Check {
         floor_thorough: 1_100_000,
         rule: "Exhaustive over all 1,112,031 scalar values >= U+0020 except U+007F. (a) for each scalar, alone and between neighbours of every encoded length ({none, a, e-acute, bitcoin sign, G-clef} on each side, 25 contexts): \
                encode_utf8, char_pop_front, char_count, char_byte_index at every index, common_prefix_len against a sibling and the input decoder are compared with std's UTF-8 functions. \
-               (b) through a whole Cli: typed between neighbours, moved over with Left/Right, deleted with Backspace, retyped, submitted inside a command name, as an argument and in a short-option cluster, recalled with Up and resubmitted, and rendered in `unexpected option: -X` by a derived command; echo bytes equal typed bytes. \
+               (b) through a whole Cli: typed between neighbours, moved over with Left/Right, deleted with Backspace, retyped, submitted inside a command name, as an argument and in a short-option cluster, recalled with Up, edited (Backspace, retype, Left, Right) and resubmitted, recalled again next to its own proper prefix, redrawn through set_prompt and left alone by Tab while the cursor stands left of it (terminal emulator), and rendered in `unexpected option: -X` by a derived command; echo bytes equal typed bytes. \
                Quick runs (b) for every scalar in one neighbour context (rotating through the 25 contexts, rotation offset = seed) and in all 25 for encoded-length boundaries and the special characters; thorough runs all 25 contexts for every scalar. \
                Every scalar is non-trivial; distinct by scalar value (counted once per scalar that passed).",
         assumptions: &[
